@@ -279,6 +279,7 @@ class Check:
             'yaml_after': rng.choice([0.0, 0.0, 0.3, 0.7]),
         }
         ntests = rng.choice([1, 1, 2, 3, 4])
+        rx = prng.derive(prng.base_seed(), 'c18-extra', tier, index)
         tests = []
         scripts: T.Dict[str, T.Any] = {}
         for i in range(ntests):
@@ -314,6 +315,11 @@ class Check:
                     data = b'ok 1 ' + b'x' * rng.choice([70000, 200000]) + rng.choice([b'', b'\n', b'\nok 2\n1..2\n'])
                 else:
                     data = b'ok 1\x00\nok 2\n\x00\n1..2\n'
+                # (added late, from a stream of its own) digit strings beyond what int() converts without complaint
+                if rx.random() < 0.12:
+                    nd = rx.choice([4300, 4301, 5000, 70000])
+                    data = rx.choice([b'ok %s\n', b'not ok %s - big\n1..1\n', b'1..%s\nok 1\n', b'TAP version %s\nok 1\n1..1\n', b'ok 1\n1..%s\n',
+                                      b'TAP version 13\n1..2\nok 1\nok %s # SKIP\n']).replace(b'%s', rx.choice([b'7', b'1', b'90']) * (nd // 1))[:200000]
             # cut
             cut = None
             if data and rng.random() < sw['cut_p']:
